@@ -217,9 +217,33 @@ fn big_shapes(thorough: bool, rng: &mut impl Rng) -> Vec<(usize, usize, usize)> 
     v
 }
 
+/// Sequences exactly as long as the motif (one valid position) and one symbol longer, for a range of widths, on every arm.
+fn exact_fit(rec: &mut Recorder, r: &mut impl Rng, thorough: bool, k_mode: Option<()>) {
+    let widths: Vec<usize> = if thorough { (1..=24).collect() } else { vec![1, 2, 3, 5, 8, 13, 20] };
+    for (i, &m) in widths.iter().enumerate() {
+        for extra in [0usize, 1] {
+            let l = m + extra;
+            let mut inp = gen_input(r, l, m, 7 * i + extra, false);
+            // thresholds that the only window(s) can meet
+            let sc = window_scores(&inp.pssm, &inp.ranks);
+            let best = sc.iter().cloned().filter(|&x| x != NINF).max();
+            let (thr, kind) = match (i + extra) % 3 { 0 => (NINF, "neg_inf"), 1 => (best.unwrap_or(0), "exactly_best"), _ => (best.unwrap_or(0) - 2, "just_below_best") };
+            inp.thr = thr; inp.thr_kind = kind;
+            for arm in Arm::all() {
+                match k_mode {
+                    None => history(rec, &inp, arm, [1usize, 256][i % 2], None, false, "exact_fit"),
+                    Some(()) => history(rec, &inp, arm, [256usize, 1][i % 2], Some(0), false, "max_exact_fit"),
+                }
+            }
+            rec.class("sequence_as_long_as_the_motif");
+        }
+    }
+}
+
 pub fn record_c02(rec: &mut Recorder, seed: u64, thorough: bool) {
     let mut r = rng(seed, 2);
     wildcard_sites(rec, &mut r, thorough, None);
+    exact_fit(rec, &mut r, thorough, None);
     let mut kind = 0;
     for (l, m, bs) in shapes(thorough, &mut r).into_iter().chain(big_shapes(thorough, &mut r)) {
         for _ in 0..(if l <= 64 { 2 } else { 1 }) {
@@ -340,11 +364,49 @@ fn saturated_near_ties(rec: &mut Recorder, r: &mut impl Rng, thorough: bool) {
     }
 }
 
+/// "Any block size >= 1" on a sequence with more than 65 536 striped rows (over 2.1 million symbols) and block sizes beyond
+/// that.  The sequence does not go into the trace (TLC could not hold it): the event carries the naive rescoring.
+fn huge_block(rec: &mut Recorder, r: &mut impl Rng, thorough: bool) {
+    let l: usize = 2_097_152 + 32 * r.gen_range(1..200) + r.gen_range(0..32);
+    let m = r.gen_range(3..=6);
+    let pssm = gen_pssm(r, m, 0);
+    let mut ranks = random_ranks::<A>(r, l, 0.0);
+    // plant the consensus once, anywhere: the unique best hit
+    let cons: Vec<usize> = pssm.iter().map(|row| row[..KK - 1].iter().enumerate().max_by_key(|x| *x.1).unwrap().0).collect();
+    let p = r.gen_range(0..l - m);
+    ranks[p..p + m].copy_from_slice(&cons);
+    let scores = window_scores(&pssm, &ranks);
+    let best = *scores.iter().max().unwrap();
+    let mat = build_pssm::<A>(&pssm);
+    let mut seq = build_seq::<A, U32>(&ranks, 0);
+    seq.configure(&mat);
+    let sizes: Vec<usize> = if thorough { vec![65_536, 65_537, 70_000, 1 << 20] } else { vec![65_537] };
+    for (i, &bs) in sizes.iter().enumerate() {
+        let thr4 = if i % 2 == 0 { best - 4 } else { best + 1 };
+        let want_none = best < thr4;
+        force(Some(Arm::Avx2));
+        let res = guarded(|| { let mut sc = Scanner::new(&mat, &seq); sc.threshold(ungrid(thr4, GS)).block_size(bs); sc.max().map(|h| (h.position(), h.score())) });
+        force(None);
+        rec.reset();
+        let mut e = json!({"ev":"max_big","arm":"avx2","L":l,"M":m,"bs":bs,"thr":thr4,"want_none":want_none,"want_score":best,"pssm":pssm});
+        match res {
+            Ok(Some((pos, sc))) => { e["ret"] = json!("hit"); e["pos"] = json!(pos); e["score"] = grid(sc, GS); e["at_pos"] = json!(if pos < scores.len() { scores[pos] } else { NINF }); }
+            Ok(None) => { e["ret"] = json!("none"); e["pos"] = json!(-1); e["score"] = json!(NINF); e["at_pos"] = json!(NINF); }
+            Err(msg) => { e["ret"] = json!("panic"); e["msg"] = json!(msg); e["pos"] = json!(-1); e["score"] = json!(NINF); e["at_pos"] = json!(NINF); }
+        }
+        rec.emit(e);
+        rec.class("more_than_65536_rows_block_size_beyond");
+        rec.nontrivial(&("huge", l, m, bs, thr4));
+    }
+}
+
 pub fn record_c03(rec: &mut Recorder, seed: u64, thorough: bool) {
     let mut r = rng(seed, 3);
+    huge_block(rec, &mut r, thorough);
     many_pending(rec, &mut r, thorough);
     saturated_near_ties(rec, &mut r, thorough);
     wildcard_sites(rec, &mut r, thorough, Some(()));
+    exact_fit(rec, &mut r, thorough, Some(()));
     let mut kind = 0;
     for (l, m, bs) in shapes(thorough, &mut r).into_iter().chain(big_shapes(thorough, &mut r)) {
         kind += 1;
